@@ -51,6 +51,10 @@ model ClipAttr parameter Real cap = 3.0; parameter Real low = -2.0; Real x(max =
 equation der(x) = -x; y = x + Clip(cap); end ClipAttr;""",
     # der() of a function call that selects one element of a vector state: inlined it is der(x)[1], not inlined the chain rule
     # over the vector symbol x must give the same
+    # subscripts that are non-affine functions of the loop variable (floor / ceil / mod: piecewise constant derivative)
+    "StepIndex": """model StepIndex parameter Real c[3] = {10, 20, 30}; Real a[5]; Real b[4]; Real x;
+equation der(x) = -x; for i in 1:5 loop a[i] = c[floor((i + 1) / 2)] * x; end for;
+  for i in 1:4 loop b[i] = c[ceil(i / 2) + 1 - floor(i / 4)] + x; end for; end StepIndex;""",
     "DerCall": """function pick input Real v[3]; output Real r; algorithm r := v[2]; end pick;
 model DerCall Real x[3]; Real a; Real b; equation a = der(pick(x)); b = der(x[3] * x[1]); der(x[1]) = 1; der(x[2]) = 2 * time; der(x[3]) = x[1]; end DerCall;""",
 }
@@ -120,7 +124,7 @@ def main():
                 break
     if payload.get("mode") == "bounded":
         print(json.dumps({"performed": True, "cases": n, "distinct_nontrivial": n, "failures": failures[:4],
-                          "rule": "5 real models (attributes written with a piecewise-linear helper function; der() of a call of a function that picks one element of a vector state; for-loops reading one array through several index expressions and calling a user function; delay inside a loop; if-expression + function + matrix) x all 8 combinations of the three options (x expand_vectors in the thorough tier): variable lists, outputs, delay states and the residual / initial residual / metadata / delay-argument functions at a random point are compared with the all-True combination",
+                          "rule": "6 real models (subscripts that are floor / ceil expressions of the loop variable; attributes written with a piecewise-linear helper function; der() of a call of a function that picks one element of a vector state; for-loops reading one array through several index expressions and calling a user function; delay inside a loop; if-expression + function + matrix) x all 8 combinations of the three options (x expand_vectors in the thorough tier): variable lists, outputs, delay states and the residual / initial residual / metadata / delay-argument functions at a random point are compared with the all-True combination",
                           "bound": "%d model/option combinations, one random point (seed %d)" % (n, seed)}))
     else:
         f = failures[0] if failures else None
